@@ -553,6 +553,29 @@ func (c *Ctx) ord2() {
 	subm.done(1, "every store to submitN follows the nil write of that iteration")
 
 	// use in connect
+	// the sequence tokens are taken behind the dial: a publish that arrives while
+	// the network is being tried gets its answer (accepted, or ErrMax) at once,
+	// it does not wait for a dial that may never return
+	if dialFn := c.Fn("ORD-2", "(*Client).dialAndConnect"); dialFn != nil {
+		early := c.acc("ORD-2", cn, "sequence-tokens-taken-behind-the-dial")
+		for _, p := range c.Paths("ORD-2", cn) {
+			if len(cn.Blocks) == 0 || p.Start != cn.Blocks[0] {
+				continue
+			}
+			iDial := p.Index(0, func(e *pathx.Event) bool { return isCallTo(e, dialFn) })
+			iSeq := p.Index(0, func(e *pathx.Event) bool {
+				return e.Kind == pathx.KRecv && strings.HasPrefix(tokenOf(e.Chan), "seqSem")
+			})
+			switch {
+			case iDial < 0 || iSeq < 0:
+			case iSeq < iDial:
+				early.fail(p, iSeq, "connect takes a sequence token before it dials: every PublishAtLeastOnce/PublishExactlyOnce blocks for as long as the dial and the handshake take — unbounded without PauseTimeout — where it is documented to be accepted or refused with ErrMax without blocking")
+			default:
+				early.pass()
+			}
+		}
+		early.done(1, "on every path the first receive from a sequence semaphore follows the call of dialAndConnect")
+	}
 	pub := c.acc("ORD-2", cn, "publish-connection⇒both-resends-nil")
 	args := c.acc("ORD-2", cn, "resend-arguments(Acked,atLeastOnce,0x8000)/(Completed,exactlyOnce,0xc000)")
 	locks := c.acc("ORD-2", cn, "resend-under-seq-tokens-and-write-token")
